@@ -8,22 +8,28 @@
 (***************************************************************************)
 EXTENDS TVCommon
 
-VARIABLES pc, kinds, ep, l, viol, judged, cur, free
-tvars == <<pc, kinds, ep, l, viol, judged, cur, free>>
+VARIABLES pc, kinds, ep, l, viol, judged, cur, free, flag, eff
+tvars == <<pc, kinds, ep, l, viol, judged, cur, free, flag, eff>>
 
-Awaits(t) == kinds[t] \in {"reply", "ack"}
+\* eff[t]: the request of t awaits an answer -- "yes" | "no" | "unknown" (written while a setting change was under way)
+Awaits(t) == eff[t] = "yes"
 Threads == DOMAIN kinds
+IsCfg(t) == kinds[t] \in {"cfg0", "cfg1"}
+Dyn == \E t \in Threads : IsCfg(t)
+CfgPending == \E t \in Threads : IsCfg(t) /\ pc[t] = "waitlock"
 
-TVInit == /\ pc = <<>> /\ kinds = <<>> /\ ep = "" /\ l = 1 /\ viol = {} /\ judged = 0 /\ cur = -1 /\ free = FALSE
+TVInit == /\ pc = <<>> /\ kinds = <<>> /\ ep = "" /\ l = 1 /\ viol = {} /\ judged = 0 /\ cur = -1 /\ free = FALSE /\ flag = FALSE /\ eff = <<>>
 
 TVReset == /\ l <= Len(Rec) /\ Rec[l].ev = "reset"
            /\ kinds' = Rec[l].kinds /\ ep' = Rec[l].ep /\ free' = Rec[l].free
            /\ pc' = [t \in 1..Len(Rec[l].kinds) |-> "idle"]
+           /\ flag' = (\E i \in 1..Len(Rec[l].kinds) : Rec[l].kinds[i] = "ack")
+           /\ eff' = [t \in 1..Len(Rec[l].kinds) |-> IF Rec[l].kinds[t] \in {"reply", "ack"} THEN "yes" ELSE "no"]
            /\ cur' = Rec[l].id /\ l' = l + 1 /\ UNCHANGED <<viol, judged>>
 
 TVStart == /\ l <= Len(Rec) /\ Rec[l].ev = "start"
            /\ pc' = [pc EXCEPT ![Rec[l].t] = "waitlock"]
-           /\ l' = l + 1 /\ UNCHANGED <<kinds, ep, viol, judged, cur, free>>
+           /\ l' = l + 1 /\ UNCHANGED <<kinds, ep, viol, judged, cur, free, flag, eff>>
 
 \* Send(t): the request of t appears on the socket
 TVSent == /\ l <= Len(Rec) /\ Rec[l].ev = "sent"
@@ -31,30 +37,37 @@ TVSent == /\ l <= Len(Rec) /\ Rec[l].ev = "sent"
                  busy == {u \in Threads \ {t} : Awaits(u) /\ pc[u] \in {"sent", "recv"}} IN
              /\ viol' = AddViol(viol, IF busy # {} THEN {"C10/" \o ep \o "/request-written-inside-another-transaction"} ELSE {}, cur)
              /\ pc' = [pc EXCEPT ![t] = "sent"]
-          /\ judged' = judged + 1 /\ l' = l + 1 /\ UNCHANGED <<kinds, ep, cur, free>>
+             /\ eff' = [eff EXCEPT ![t] = IF Dyn /\ kinds[t] \in {"ack", "ff"}
+                                          THEN (IF CfgPending THEN "unknown" ELSE IF flag THEN "yes" ELSE "no") ELSE eff[t]]
+          /\ judged' = judged + 1 /\ l' = l + 1 /\ UNCHANGED <<kinds, ep, cur, free, flag>>
 
 TVBeforeRecv == /\ l <= Len(Rec) /\ Rec[l].ev = "before_recv"
                 /\ pc' = [pc EXCEPT ![Rec[l].t] = "recv"]
-                /\ l' = l + 1 /\ UNCHANGED <<kinds, ep, viol, judged, cur, free>>
+                /\ l' = l + 1 /\ UNCHANGED <<kinds, ep, viol, judged, cur, free, flag, eff>>
 
 \* the answer has been consumed (still under the endpoint lock): the transaction is over
 TVReceived == /\ l <= Len(Rec) /\ Rec[l].ev = "received"
               /\ pc' = [pc EXCEPT ![Rec[l].t] = "returning"]
-              /\ l' = l + 1 /\ UNCHANGED <<kinds, ep, viol, judged, cur, free>>
+              /\ l' = l + 1 /\ UNCHANGED <<kinds, ep, viol, judged, cur, free, flag, eff>>
 
 TVDone == /\ l <= Len(Rec) /\ Rec[l].ev = "done"
           /\ LET t == Rec[l].t IN
              /\ viol' = AddViol(viol, (IF ~Rec[l].ok THEN {"C10/" \o ep \o "/call-failed/" \o kinds[t]} ELSE {})
-                                       \cup (IF Rec[l].ok /\ ~Rec[l].own THEN {"C10/" \o ep \o "/answer-of-another-request"} ELSE {}), cur)
+                                       \cup (IF Rec[l].ok /\ ~Rec[l].own THEN {"C10/" \o ep \o "/answer-of-another-request"} ELSE {})
+                                       \* the request asked for an answer, the call returned without having read it: the answer is
+                                       \* left on the shared socket for whoever reads next
+                                       \cup (IF ~IsCfg(t) /\ Rec[l].ok /\ eff[t] = "yes" /\ pc[t] # "returning"
+                                             THEN {"C10/" \o ep \o "/returned-without-consuming-its-answer/" \o kinds[t]} ELSE {}), cur)
              /\ pc' = [pc EXCEPT ![t] = IF free THEN "waitlock" ELSE "done"]
-          /\ judged' = judged + 1 /\ l' = l + 1 /\ UNCHANGED <<kinds, ep, cur, free>>
+             /\ flag' = IF IsCfg(t) THEN kinds[t] = "cfg1" ELSE flag
+          /\ judged' = judged + 1 /\ l' = l + 1 /\ UNCHANGED <<kinds, ep, cur, free, eff>>
 
 TVPeer == /\ l <= Len(Rec) /\ Rec[l].ev = "peer"
-          /\ l' = l + 1 /\ UNCHANGED <<pc, kinds, ep, viol, judged, cur, free>>
+          /\ l' = l + 1 /\ UNCHANGED <<pc, kinds, ep, viol, judged, cur, free, flag, eff>>
 
 TVEnd == /\ l <= Len(Rec) /\ Rec[l].ev = "end"
          /\ viol' = AddViol(viol, IF Rec[l].hang THEN {"C10/" \o ep \o "/calls-do-not-complete"} ELSE {}, cur)
-         /\ l' = l + 1 /\ UNCHANGED <<pc, kinds, ep, judged, cur, free>>
+         /\ l' = l + 1 /\ UNCHANGED <<pc, kinds, ep, judged, cur, free, flag, eff>>
 
 TVNext == TVReset \/ TVStart \/ TVSent \/ TVBeforeRecv \/ TVReceived \/ TVDone \/ TVPeer \/ TVEnd
 TVSpec == TVInit /\ [][TVNext]_tvars
